@@ -120,7 +120,9 @@ def run(ck):
                 if 'time' in table.axes:
                     contexts = [dict(window=(None, None), tests=healthy(tname)), dict(window=(t(1), t(4)), tests={sid: [entry]})]
                     check_run(ck, fe, tname, fname, 'second-context', table, contexts, base_map, entry, sid, base_collected)
-                    if fname.startswith('climatology-') or thorough:
+                    intrinsic = fname in ('unknown-module', 'unknown-test', 'rejected-parameters', 'missing-required-parameter', 'malformed-parameter', 'unknown-method-name',
+                                          'raises-on-data', 'unknown-dotted-module', 'unknown-nested-module', 'name-of-a-non-test-attribute')      # faulty on any stream
+                    if fname.startswith('climatology-') or (thorough and intrinsic):
                         # the same failing entry read in two contexts (and for two streams): it fails the second time as it did the first
                         contexts = [dict(window=(None, None), tests=insert(healthy(tname), sid, entry, 'last')),
                                     dict(window=(t(1), t(4)), tests={sid: [entry], 'b': [entry] if sid != 'b' else ['valid']})]
